@@ -31,11 +31,40 @@ CHECKS["C14"] = dict(engine="jets", category="proof", design_ref="DESIGN.md §5 
          "names, type names only. Return-type/static width mismatches of three FFI items are tolerated by name and reported.",
     technique="Coq proof by computation over tables translated from the Rust and C sources")
 
+CHECKS["C10"] = dict(engine="value", category="proof", design_ref="DESIGN.md §5 C10",
+    text="Byte-faithful Coq model of value.rs (buffer, bit offset, type; accessors, RawByteIter, compact iterator, right_shift_1, "
+         "copy_bits, product, constructors, both decoders, prune with explicit stacks) refines the typed-value specification of "
+         "Ty/Ty.v: well-formedness preserved by every operation, padded/compact encodings, exact consumption, constructor/accessor "
+         "inverses in both directions, prune = sprune for every target without panic, prune twice = once. Tied to the code by a "
+         "pool-machine correspondence (raw buffer bytes and offsets compared) and a direct property test with a python reference.",
+    note="Trusted: Coq kernel + vm_compute byte sweeps, hand-written model, harness (Debug parse of raw_value/raw_bit_offset), "
+         "TMR equality modelled as structural type equality; theorems below usize saturation of widths.",
+    technique="Coq refinement proof (invariant + abstraction function) + model/implementation correspondence")
+CHECKS["C11"] = dict(engine="value", category="proof", design_ref="DESIGN.md §5 C11",
+    text="For well-formed values of the byte model: == is true iff same type and same abstract value, equal values have equal hash "
+         "streams (and conversely), cmp is a total order whose Equal case coincides with ==; the pre-fix raw-byte comparison is "
+         "refuted in Coq (documenting the repair in /repo). Correspondence on all ordered pairs of pool values from every "
+         "production history (constructors, decoders with dirty padding, sub-values at every offset, prune, machine output).",
+    note="Trusted: as C10; the type order is a parameter (total order hypothesis, shown satisfiable); DefaultHasher digest "
+         "equality stands for hash-stream equality.",
+    technique="Coq proof over the byte model + correspondence on all pairs")
+CHECKS["C16"] = dict(engine="policy", category="proof", design_ref="DESIGN.md §5 C16",
+    text="Coq model of policy/ast.rs, serialize.rs (generic over the constructor algebra: node trees, CMR-only, Hiding), "
+         "satisfy.rs and sort: root homomorphism (Policy::cmr = compiled root = root of every satisfied/pruned program, for any "
+         "tagged hash), satisfy succeeds iff the policy holds for a truthful satisfier (under the stated cost premise, shown "
+         "necessary), returned programs evaluate to unit in a mini big-step semantics with jets as oracle, sort idempotent, "
+         "canonical and invariant under reordering at any depth; old sort refuted. Correspondence with real keys/signatures.",
+    note="Trusted: Coq kernel, hand-written model, jets as an oracle (truthful hypothesis), harness with secp256k1 keys; type "
+         "inference inside the constructors and IHR identity are idealised.",
+    technique="Coq proof (algebra homomorphism, induction on policies) + correspondence")
+
 NOT_YET = {}
 
 ENGINES = [
     dict(name="bits", path="coq/Bits", serves_properties=["C13"], kind_free_text="Coq model + proofs of bit reader/writer/natural code"),
     dict(name="budget", path="coq/Budget", serves_properties=["C19"], kind_free_text="Coq model + proofs of budget/padding arithmetic over translated constants"),
+    dict(name="value", path="coq/Value", serves_properties=["C10", "C11"], kind_free_text="byte-level Coq model of Value + refinement proofs"),
+    dict(name="policy", path="coq/Policy", serves_properties=["C16"], kind_free_text="Coq model of policy compilation/satisfaction/sorting"),
     dict(name="jets", path="coq/Jets", serves_properties=["C14"], kind_free_text="translated jet/FFI tables + Coq proofs by computation"),
 ]
 
